@@ -11,6 +11,8 @@ namespace AL.Properties.Sweep
 open AL AL.Impl AL.Spec.X86
 
 def checkItem (opt : Nat) (it : Item) : Bool :=
+  -- `[base+rsp]` is judged only where the index/base swap is NASM (bit 4): STRICT has its documented literal form
+  if stackIndex it && opt / 4 % 2 == 0 then true else
   match (assembleLine opt (toStr it.text)).1 with
   | .ok (.code bs) =>
     !mustReject it &&
